@@ -493,3 +493,5 @@ _quick("C10", "C10_relaybin", "forwarding through the binary wrapper, for every 
 _PIPE = "a shared key whose holder SET an 8-byte value; an ack-required lock carrying a PIPELINE of two sub-operations out of {SET, APPEND, SHIFT 1, INCR 1} goes pending; the acknowledgement fails (negative follower ack / the wait runs out): one error reply, no crash, the register holds the 8 bytes from before"
 _quick("C11", "C11_pipeline", _PIPE, ["-witness", "1"])
 _quick("C13", "C11_pipeline", "(also under C11) " + _PIPE + " (every run-time check on the undo path is an obligation: well-formed frames must not crash the server)", ["-witness", "1"])
+
+_quick("C05", "C05_mslate", "the millisecond wheel when a slot's sweeper goroutine is d = 0 / 1 / 5 ms late: W1 waits 300 ms; in the window between its deadline and its sweeper's run W2 arrives with a wait of 2500 / 2995 / 3000 - d ms; neither is answered TIMEOUT before its wait has passed, each exactly once by T + 2 s", [], reach=["late-sweep"], native=False)
